@@ -69,6 +69,29 @@ theorem scalar_scalar (op : Op) (how : How) (m : Option Dir) (p q : Option Rat) 
     binop op how m (.num p) (.num q) = .num (op.appO p q) := by
   cases how <;> simp [binop, alignAll, indexesOf, joinIndex, kernel]
 
+/-- ... also with a fill method: the scalar broadcasts over the Series' own index, where the Series shows its
+forward / backward filled value (`add_(a, 1, method='ffill')` fills `a`'s NaN before adding) -/
+theorem scalar_right_fill (op : Op) (how : How) (m : Option Dir) (a : RSeries) (q : Option Rat) :
+    binop op how m (.ts a) (.num q) =
+      .ts { idx := a.idx, vals := a.idx.map fun t => op.appO (lookR a m t) q } := by
+  cases how <;> simp [binop, alignAll, indexesOf, joinIndex, kernel, reindexR_eq, List.map_map, Function.comp_def]
+
+theorem scalar_left_fill (op : Op) (how : How) (m : Option Dir) (b : RSeries) (q : Option Rat) :
+    binop op how m (.num q) (.ts b) =
+      .ts { idx := b.idx, vals := b.idx.map fun t => op.appO q (lookR b m t) } := by
+  cases how <;> simp [binop, alignAll, indexesOf, joinIndex, kernel, reindexR_eq, List.map_map, Function.comp_def]
+
+/-- `add_` and `mul_` commute between a Series and a scalar, for every index policy (also `lj` / `rj`) and fill method -/
+theorem add_comm_scalar (how : How) (m : Option Dir) (a : RSeries) (q : Option Rat) :
+    binop .add how m (.ts a) (.num q) = binop .add how m (.num q) (.ts a) := by
+  rw [scalar_right_fill, scalar_left_fill]
+  congr 3; funext t; exact appO_comm_add _ _
+
+theorem mul_comm_scalar (how : How) (m : Option Dir) (a : RSeries) (q : Option Rat) :
+    binop .mul how m (.ts a) (.num q) = binop .mul how m (.num q) (.ts a) := by
+  rw [scalar_right_fill, scalar_left_fill]
+  congr 3; funext t; exact appO_comm_mul _ _
+
 /-- dividing a Series by the scalar 0 gives NaN at every timestamp of the Series (F10: the unrepaired code
 returned the scalar nan) -/
 theorem div_by_zero_scalar (how : How) (a : RSeries) :
@@ -144,6 +167,20 @@ theorem reduce_sub (how : How) (m : Option Dir) (x y : Operand) (xs ys : List Op
 theorem reduce_div (how : How) (m : Option Dir) (x y : Operand) (xs ys : List Operand) :
     opList .div how m (x :: xs) (y :: ys) =
       some (binop .div how m (xs.foldl (binop .mul how m) x) (ys.foldl (binop .mul how m) y)) := rfl
+
+/-- **left to right, by value** (not through the model's own fold): three Series, any index policy, no fill
+method - `add_([a, b, c])` lives on the joint index of `a ∩ b` and `c` and holds `(a[t] op b[t]) op c[t]` there.
+`reduce_left` is the definitional unfolding; this one reads the result. -/
+theorem reduce_value (op : Op) (hop : op = .add ∨ op = .mul) (how : How) (a b c : RSeries) :
+    ∃ ix jx, joinIndex how [a.idx, b.idx] = some ix ∧ joinIndex how [ix, c.idx] = some jx ∧
+      opList op how Option.none [.ts a, .ts b, .ts c] [] =
+        some (.ts (RSeries.mk jx (jx.map fun t =>
+          op.appO (valueAtR (RSeries.mk ix (ix.map fun t => op.appO (valueAtR a t) (valueAtR b t))) t) (valueAtR c t)))) := by
+  obtain ⟨ix, h1, e1⟩ := binop_value op how a b
+  obtain ⟨jx, h2, e2⟩ := binop_value op how (RSeries.mk ix (ix.map fun t => op.appO (valueAtR a t) (valueAtR b t))) c
+  refine ⟨ix, jx, h1, h2, ?_⟩
+  rw [reduce_left op hop]
+  simp only [List.append_nil, List.foldl_cons, List.foldl_nil, e1, e2]
 
 /-! ### NaN-skipping aggregates -/
 
@@ -596,6 +633,55 @@ theorem mul_comm_frames (how : How) (hh : how = .inner ∨ how = .outer) (m : Op
     (ha : a.cols.length > 1) (hb : b.cols.length > 1) (sa : SortedL a.idx) (sb : SortedL b.idx) :
     binopF .mul how m ch (.df a) (.df b) = binopF .mul how m ch (.df b) (.df a) :=
   binopF_comm_aux .mul appO_comm_mul how hh m ch a b ha hb sa sb
+
+/-- ... and between a frame and a Series (the Series is broadcast to every column on either side) -/
+theorem add_comm_frame_series (how : How) (hh : how = .inner ∨ how = .outer) (m : Option Dir) (ch : ColHow) (a : RFrame) (s : RSeries)
+    (ha : a.cols.length > 1) (sa : SortedL a.idx) (ss : SortedL s.idx) :
+    binopF .add how m ch (.df a) (.ts s) = binopF .add how m ch (.ts s) (.df a) := by
+  obtain ⟨ix, h1, e1⟩ := binopF_frame_series .add how m ch a s ha
+  obtain ⟨ix', h2, e2⟩ := binopF_series_frame .add how m ch a s ha
+  have : ix = ix' := by
+    rcases hh with rfl | rfl
+    · rw [joinIndex_comm_inner _ _ sa ss] at h1; rw [h1] at h2; exact Option.some.inj h2
+    · rw [joinIndex_comm_outer _ _ sa ss] at h1; rw [h1] at h2; exact Option.some.inj h2
+  subst this
+  rw [e1, e2]
+  congr 2
+  apply List.map_congr_left
+  intro c _
+  congr 2; funext t; exact appO_comm_add _ _
+
+theorem mul_comm_frame_series (how : How) (hh : how = .inner ∨ how = .outer) (m : Option Dir) (ch : ColHow) (a : RFrame) (s : RSeries)
+    (ha : a.cols.length > 1) (sa : SortedL a.idx) (ss : SortedL s.idx) :
+    binopF .mul how m ch (.df a) (.ts s) = binopF .mul how m ch (.ts s) (.df a) := by
+  obtain ⟨ix, h1, e1⟩ := binopF_frame_series .mul how m ch a s ha
+  obtain ⟨ix', h2, e2⟩ := binopF_series_frame .mul how m ch a s ha
+  have : ix = ix' := by
+    rcases hh with rfl | rfl
+    · rw [joinIndex_comm_inner _ _ sa ss] at h1; rw [h1] at h2; exact Option.some.inj h2
+    · rw [joinIndex_comm_outer _ _ sa ss] at h1; rw [h1] at h2; exact Option.some.inj h2
+  subst this
+  rw [e1, e2]
+  congr 2
+  apply List.map_congr_left
+  intro c _
+  congr 2; funext t; exact appO_comm_mul _ _
+
+theorem add_comm_frame_scalar (how : How) (m : Option Dir) (ch : ColHow) (a : RFrame) (q : Option Rat) (ha : a.cols.length > 1) :
+    binopF .add how m ch (.df a) (.num q) = binopF .add how m ch (.num q) (.df a) := by
+  rw [binopF_frame_scalar _ _ _ _ _ _ ha, binopF_scalar_frame _ _ _ _ _ _ ha]
+  congr 2
+  apply List.map_congr_left
+  intro c _
+  congr 2; funext t; exact appO_comm_add _ _
+
+theorem mul_comm_frame_scalar (how : How) (m : Option Dir) (ch : ColHow) (a : RFrame) (q : Option Rat) (ha : a.cols.length > 1) :
+    binopF .mul how m ch (.df a) (.num q) = binopF .mul how m ch (.num q) (.df a) := by
+  rw [binopF_frame_scalar _ _ _ _ _ _ ha, binopF_scalar_frame _ _ _ _ _ _ ha]
+  congr 2
+  apply List.map_congr_left
+  intro c _
+  congr 2; funext t; exact appO_comm_mul _ _
 
 /-! ### lists of frames reduce left to right -/
 
